@@ -42,7 +42,7 @@ LEVEL_NOTE = ("Trusts the wrapped elements' own methods (twins are driven throug
 TECHNIQUE = "history recorder + block-model twin oracle + exactly-once accounting + LINE step budget"
 
 RUN_KINDS = ["run_collect", "run_cum", "run_map", "run_first", "run_named"]
-FC_KINDS = ["fc_store", "fc_sum", "fc_count"]
+FC_KINDS = ["fc_store", "fc_sum", "fc_count", "fc_live"]
 FR_KINDS = ["fr_store", "fr_inner", "fr_custom"]
 
 
@@ -177,6 +177,23 @@ class Store(object):
         self.vals = []
 
 
+class LiveStore(object):
+    """Yields its own live list (like lena.structures.Graph yields itself); reset() empties that
+    list in place: a result is what it is when it arrives."""
+
+    def __init__(self):
+        self.values = []
+
+    def fill(self, v):
+        self.values.append(v)
+
+    def compute(self):
+        yield self.values
+
+    def reset(self):
+        del self.values[:]
+
+
 class StoreFR(object):
     def __init__(self):
         self.vals = []
@@ -254,6 +271,8 @@ def make_el(kind):
         return RunFirst()
     if kind == "fc_store":
         return Store()
+    if kind == "fc_live":
+        return LiveStore()
     if kind == "fc_sum":
         return lena.math.Sum()
     if kind == "fc_count":
@@ -286,6 +305,11 @@ def apply_block(kind, el, block):
     return list(el.compute())
 
 
+def _arrived(x):
+    """A result as a streaming consumer sees it at arrival (a live list is copied)."""
+    return list(x) if type(x) is list else x
+
+
 def model_run(kind, n, reset, yor, xs):
     """Block model: what the wrapped element yields for each consecutive block."""
     el = make_el(kind)
@@ -294,7 +318,7 @@ def model_run(kind, n, reset, yor, xs):
         b = xs[i:i + n]
         if len(b) < n and not yor:
             break
-        out.extend(apply_block(kind, el, b))
+        out.extend(_arrived(x) for x in apply_block(kind, el, b))
         if reset:
             if kind == "fr_custom":
                 el.my_reset()
@@ -329,6 +353,10 @@ def cases(tier, seed):
     for kind in RUN_KINDS + FC_KINDS + FR_KINDS:
         for n in range(1, 6):
             for mode in ["in", "out"]:
+                if kind == "fc_live" and mode == "out":
+                    # results that are live objects of the element cannot be kept in a buffer
+                    # of results while the element goes on: not a combination the adapter offers
+                    continue
                 for reset in ([False, True] if has_reset(kind) else [False]):
                     for yor in [False, True]:
                         yield {"k": "run", "kind": kind, "n": n, "mode": mode, "reset": reset,
@@ -436,7 +464,7 @@ def run_case(r, obs):
                 obs.nontrivial = True
             try:
                 with _guard(obs, 400 * (N + 2) + 2000):
-                    got = list(fr.run(iter(xs)))
+                    got = [_arrived(x) for x in fr.run(iter(xs))]
             except StepBudgetExceeded as e:
                 obs.fail("run:%s:buffer_%s:nontermination" % (kind.split("_")[0], mode),
                          "FillRequest(%s, bufsize=%d, %s, reset=%s, yor=%s).run(%r): %s"
@@ -462,7 +490,7 @@ def run_case(r, obs):
                                             True if mode == "out" else None, yor)
                 try:
                     with _guard(obs, 400 * (N + 2) + 2000):
-                        gotp = list(frp.run(iter(xs)))
+                        gotp = [_arrived(x) for x in frp.run(iter(xs))]
                 except StepBudgetExceeded as e:
                     gotp = "does not return: %s" % e
                 obs.count("run_executions")
@@ -488,7 +516,7 @@ def run_case(r, obs):
                                     stream = lena.core.Sequence(frc).run(mkc())
                                 else:
                                     stream = lena.core.Source(mkc(), frc)()
-                                gotc = list(itertools.islice(stream, len(exp) + 4))
+                                gotc = [_arrived(x) for x in itertools.islice(stream, len(exp) + 4)]
                         except StepBudgetExceeded as e:
                             obs.fail("run:%s:buffer_%s:nontermination" % (kind.split("_")[0], mode),
                                      "in a %s over a %s: %s" % (how, cname, e))
@@ -535,8 +563,8 @@ def run_case(r, obs):
                 import copy
                 orig = make_fr(kind, n, mode, reset, yor)
                 dup = copy.deepcopy(orig)
-                gd = list(dup.run(iter(ys)))
-                go = list(orig.run(iter(xs)))
+                gd = [_arrived(x) for x in dup.run(iter(ys))]
+                go = [_arrived(x) for x in orig.run(iter(xs))]
                 obs.count("run_executions", 2)
                 obs.check(go == exp and gd == model_run(kind, n, reset, yor, ys),
                           "run:%s:buffer_%s%s:deep-copy-differs"
@@ -564,7 +592,7 @@ def run_case(r, obs):
                     obs.count("run_executions")
                     try:
                         with _guard(obs, 400 * (N + 2) + 2000):
-                            got = list(fr.run(iter(xs)))
+                            got = [_arrived(x) for x in fr.run(iter(xs))]
                     except StepBudgetExceeded as e:
                         obs.fail("run:%s:buffer_%s:nontermination" % (kind.split("_")[0], mode),
                                  "run(%r): %s" % (xs, e))
@@ -597,7 +625,7 @@ def run_case(r, obs):
                 obs.count("split_executions")
                 try:
                     with _guard(obs, 600 * (N + 2) + 3000):
-                        got = list(sp.run(iter(xs)))
+                        got = [_arrived(x) for x in sp.run(iter(xs))]
                 except StepBudgetExceeded as e:
                     obs.fail("stop:buffer_%s:nontermination" % mode, "%s" % e)
                     continue
@@ -639,14 +667,14 @@ def run_case(r, obs):
                         fills_since_request += 1
                         max_fills_between = max(max_fills_between, fills_since_request)
                         if mask >> i & 1:
-                            res = list(fr.request())
+                            res = [_arrived(x) for x in fr.request()]
                             hist.append("r->%r" % (res,))
                             got.extend(res)
                             if (i + 1) % n:
                                 aligned = False
                             fills_since_request = 0
                             _buffers(fr, n, mode, hist, obs)
-                    res = list(fr.request())
+                    res = [_arrived(x) for x in fr.request()]
                     hist.append("r->%r" % (res,))
                     got.extend(res)
                     _buffers(fr, n, mode, hist, obs)
@@ -670,10 +698,10 @@ def run_case(r, obs):
                             o.fill(x)
                             c.fill(x + 500)
                             if mask >> i & 1:
-                                go.extend(o.request())
-                                gc.extend(c.request())
-                        go.extend(o.request())
-                        gc.extend(c.request())
+                                go.extend(_arrived(x) for x in o.request())
+                                gc.extend(_arrived(x) for x in c.request())
+                        go.extend(_arrived(x) for x in o.request())
+                        gc.extend(_arrived(x) for x in c.request())
                 except StepBudgetExceeded as e:
                     obs.fail("fill-request:buffer_%s:nontermination:deep-copy" % mode, "%s" % e)
                 else:
@@ -685,7 +713,9 @@ def run_case(r, obs):
                               "of it, both driven by the history %s: original %r (expected %r), "
                               "copy %r (expected %r)"
                               % (kind, n, mode, reset, " ".join(hist), go, exp, gc, expc))
-            if mask % 3 == 1 and N:
+            if mask % 3 == 1 and N and kind != "fc_live":
+                # (not for an element whose results are live objects: read later, they have
+                # changed)
                 # the result of request() is not read at once: it is dropped unread at the
                 # masked points (nothing was taken, so nothing may be lost), or read only after
                 # the next fill
@@ -718,6 +748,28 @@ def run_case(r, obs):
                                  "with every request() result %s: all results together %r, run() "
                                  "on the whole flow gives %r"
                                  % (kind, n, mode, reset, " ".join(hist), how, got2, exp))
+            if mask in (0, (1 << N) - 1, 5) and N and reset and kind in ("fc_store", "fr_store"):
+                # values that are objects compared by identity: the results hold the very
+                # objects that were filled (nothing is copied on the way)
+                objs = [_Odd("v%d" % i) for i in range(N)]
+                fr4 = make_fr(kind, n, mode, reset, False)
+                held = []
+                for i, x in enumerate(objs):
+                    fr4.fill(x)
+                    if mask >> i & 1:
+                        held.extend(fr4.request())
+                held.extend(fr4.request())
+                inside = []
+                for res in held:
+                    inside.extend(res[1] if isinstance(res, tuple) and isinstance(res[1], list)
+                                  else [res])
+                nfull = (N // n) * n
+                obs.count("histories")
+                obs.check(len(inside) == nfull and all(a is b for a, b in zip(inside, objs)),
+                          "fill-request:buffer_%s:results-do-not-hold-the-filled-objects" % mode,
+                          "FillRequest(%s, bufsize=%d, buffer_%sput): %d objects filled, the "
+                          "results hold %r - expected the first %d filled objects themselves"
+                          % (kind, n, mode, N, inside, nfull))
             if got != exp:
                 shape = classify_diff(got, exp, xs, n)
                 cond = ("requests-on-block-boundaries" if aligned else
@@ -741,7 +793,7 @@ def run_case(r, obs):
                     obs.nontrivial = True
                 try:
                     with _guard(obs, 600 * (N + 2) + 3000):
-                        got = list(sp.run(iter(xs)))
+                        got = [_arrived(x) for x in sp.run(iter(xs))]
                 except StepBudgetExceeded as e:
                     obs.fail("split:buffer_%s:nontermination:%s"
                              % (mode, "split-bufsize>block" if (b is None or b > n)
@@ -778,7 +830,7 @@ def run_case(r, obs):
                         obs.count("split_executions")
                         try:
                             with _guard(obs, 1200 * (N + 2) + 6000):
-                                got2 = [v for v in sp2.run(iter(xs))
+                                got2 = [_arrived(v) for v in sp2.run(iter(xs))
                                         if not (isinstance(v, tuple) and len(v) == 2
                                                 and v[0] == "STOPPED-BRANCH")]
                         except StepBudgetExceeded as e:
@@ -808,7 +860,7 @@ def run_case(r, obs):
                         elif how == "split-unbounded":
                             got = list(lena.core.Split([fr], bufsize=None).run(iter(xs)))
                         elif how == "run":
-                            got = list(fr.run(iter(xs)))
+                            got = [_arrived(x) for x in fr.run(iter(xs))]
                         else:
                             for x in xs:
                                 fr.fill(x)
@@ -898,7 +950,7 @@ def run_case(r, obs):
                 sp = lena.core.Split([mk(n)], bufsize=b)
                 try:
                     with _guard(obs, 800 * (N + 2) + 3000):
-                        got = list(sp.run(iter(xs)))
+                        got = [_arrived(x) for x in sp.run(iter(xs))]
                 except StepBudgetExceeded as e:
                     obs.fail("frseq:split:nontermination", "Split([FillRequestSeq]) %s" % e)
                     continue
@@ -969,3 +1021,5 @@ RULE += (' Added: values whose == answers with a non-bool / True for everything 
          'two requests, Split with its default bufsize).')
 RULE += (' Added: the options given positionally in the order of the documented signature; '
          'request() results that are dropped unread or read only after the next fill.')
+RULE += (' Added: an element whose results are its own live state (copied by the consumer at '
+         'arrival); values that are objects compared by identity (the results hold those objects).')
